@@ -1,4 +1,4 @@
-CONSTANTS MaxDepth = 3 Mode = "spec"
+CONSTANTS MaxDepth = 3 Mode = "spec" WideLast = FALSE
 INIT Init
 NEXT Next
 INVARIANT Laws
